@@ -182,12 +182,12 @@ def _run_side(model, o):
             return ('exc', type(e).__name__, str(e)[:160])
 
 
-def compare_program(symbols_text, so, datasets, optsets, names):
+def compare_program(symbols_text, so, datasets, optsets, names, bopts=None):
     """Runs in a forked child: build both classes, run every option set on every dataset, return observations."""
     import fsic
     from fsic.fortran import FortranEngine
     symbols = fsic.parse_model(symbols_text)
-    Py = fsic.build_model(symbols)
+    Py = fsic.build_model(symbols, **(bopts or {}))
 
     class Rec(Py):
         def _evaluate(self, t, **kw):
@@ -266,8 +266,24 @@ def one_program(ctx, prog, rng, workdir, tag, has_literals, depth=0, fixed=None)
     except Exception:
         ctx.count('program_rejected')
         return None
+    # lag/lead build options, given to both back-ends alike (imposed values never below what the equations need)
+    bopts = {}
+    if fixed is not None:
+        bopts = dict(fixed.get('build_options') or {})
+    elif rng.random() < 0.3:
+        L0, D0 = Model.LAGS, Model.LEADS
+        for key, base in (('lags', L0), ('leads', D0)):
+            r = rng.random()
+            if r < 0.35:
+                bopts[key] = base + rng.choice([0, 1, 2])
+            if rng.random() < 0.5:
+                bopts['min_' + key] = rng.choice([0, base, base + 1, base + 3])
+    if bopts:
+        ctx.count('programs_with_build_options')
+        case['build_options'] = dict(bopts)
+        Model = fsic.build_model(symbols, **bopts)
     try:
-        src = build_fortran_definition(symbols, wrap_width=rng.choice([100, 100, 60]))
+        src = build_fortran_definition(symbols, wrap_width=rng.choice([100, 100, 60]), **bopts)
     except Exception as e:
         ctx.violation('fortran-definition-raises', f'build_fortran_definition raised {type(e).__name__}: {e}', case)
         return 'fail'
@@ -299,7 +315,7 @@ def one_program(ctx, prog, rng, workdir, tag, has_literals, depth=0, fixed=None)
     if fixed is not None:
         datasets = [{k: np.array(v, dtype=float) for k, v in fixed['data'].items()}]
         optsets = [fixed['options']]
-    res = fortran.isolated(compare_program, script, so, datasets, optsets, names)
+    res = fortran.isolated(compare_program, script, so, datasets, optsets, names, bopts)
     if res[0] != 'ok':
         msg = res[2][-900:] if len(res) > 2 else ''
         mech = 'fortran-runtime-check-abort' if 'Fortran runtime error' in msg else ('sanitizer-report' if ('Sanitizer' in msg or 'runtime error:' in msg) else 'fortran-child-died')
@@ -450,7 +466,7 @@ def replay(ctx, case):
     try:
         prog = gen.from_json(case['program'])
         ctx.evaluation(case['script'], nontrivial=True)
-        fixed = {'data': case['data'], 'options': case['options']} if 'data' in case and 'options' in case else None
+        fixed = {'data': case['data'], 'options': case['options'], 'build_options': case.get('build_options')} if 'data' in case and 'options' in case else None
         one_program(ctx, prog, ctx.rng('c07'), workdir, 'replay', has_literals=any(isinstance(n, gen.Num) for e in prog.equations() for n in e.rhs.walk()), fixed=fixed)
     finally:
         shutil.rmtree(workdir, ignore_errors=True)
